@@ -153,8 +153,10 @@ RECURSIVE CastOp(_, _)
 CastOp(v, to) ==
     LET ok(x) == [err |-> FALSE, v |-> x]
     IN  IF IsU(v) THEN ok(U)
-        ELSE IF v.k = "V" THEN (IF BaseOf(to) = "V" THEN ok(v) ELSE IF TypeOf(v.v) = to THEN ok(v.v) ELSE [err |-> TRUE, v |-> U])
+        ELSE IF v.k = "V" THEN (IF BaseOf(to) = "V" THEN ok(v) ELSE IF TEq(TypeOf(v.v), to) THEN ok(v.v) ELSE [err |-> TRUE, v |-> U])
         ELSE IF BaseOf(to) = "V" THEN ok([k |-> "V", v |-> v])
+        ELSE IF IsDefT(to) THEN (IF IsTagged(v) THEN ok(v) ELSE ok(Tag(v, to.d)))       \* underlying type -> definition (or the identity)
+        ELSE IF IsTagged(v) THEN ok(Untag(v))                                            \* definition -> its underlying type (the only other legal target)
         ELSE IF IsListT(to) THEN (IF v.k = "L" THEN ok(v) ELSE ok(LV(to.l, <<v>>)))
         ELSE IF TypeOf(v) = to THEN ok(v)
         ELSE ok(CASE BaseOf(to) = "Z" -> (CASE v.k = "K" -> KToZ(v) [] v.k = "B" -> ZI(v.v) [] v.k = "W" -> ZI(IF v.v THEN 1 ELSE 0)
@@ -186,6 +188,7 @@ DefaultOf(P, t, st) ==
     CASE BaseOf(t) = "Z" -> R(ZI(0), st) [] BaseOf(t) = "K" -> R(KFin(0, 0), st) [] BaseOf(t) = "B" -> R(BV(0), st) [] BaseOf(t) = "W" -> R(WV(FALSE), st)
       [] BaseOf(t) = "C" -> R(CV(0), st) [] BaseOf(t) = "T" -> R(TV(<<>>), st) [] BaseOf(t) = "V" -> RU(st)
       [] IsListT(t) -> R(LV(t.l, <<>>), st)
+      [] IsDefT(t) -> (LET r == DefaultOf(P, t.of, st) IN IF IsU(r.v) THEN r ELSE R(Tag(r.v, t.d), r.st))
       [] OTHER -> NewStruct(P, StructDecl(P, t.s), <<>>, 1, <<>>, [l |-> <<>>, g |-> <<>>], st)
 
 \* builds a Kombination: given = << [p, v] >> values for some fields, the others take their default expression
@@ -285,7 +288,7 @@ EvalK10(P, e, env, st) ==
 
 EvalK11(P, e, env, st) ==
     LET r == Eval(P, e.l, env, st)
-           IN  IF ~Ok(r.st) THEN r ELSE IF IsU(r.v) THEN RU(r.st) ELSE R(WV(TypeOf(r.v.v) = e.t), r.st)
+           IN  IF ~Ok(r.st) THEN r ELSE IF IsU(r.v) THEN RU(r.st) ELSE R(WV(TEq(TypeOf(r.v.v), e.t)), r.st)
 
 EvalK12(P, e, env, st) ==
     LET q == EvalSeq(P, e.vals, 1, env, st)
